@@ -72,6 +72,11 @@ func (a *analysis) addObj(v ssa.Value, t int) {
 // (e.g. padBytes returns input[:length]); root() follows a call to such a function into the matching argument.
 var retAliasOf = map[*ssa.Function][]int{}
 
+// retGlobalOf: an analysed function one of whose pointer-like results points into a package-level variable
+// (func table() map[string]T { once.Do(build); return theTable }); root() follows a call to it into that variable, so
+// that what its callers do with the reference is judged as a use of the global itself.
+var retGlobalOf = map[*ssa.Function]*ssa.Global{}
+
 func paramIndex(f *ssa.Function, p *ssa.Parameter) int {
 	for i, q := range f.Params {
 		if q == p {
@@ -176,6 +181,10 @@ func rootD(v ssa.Value) (ssa.Value, bool) {
 				continue
 			}
 			if f := x.Call.StaticCallee(); f != nil {
+				if gl, ok := retGlobalOf[f]; ok && gl != nil {
+					v = gl
+					continue
+				}
 				if idxs, ok := retAliasOf[f]; ok && len(idxs) > 0 {
 					// the result aliases one of the arguments: prefer a non-benign one (over-approximation)
 					best := -1
@@ -515,6 +524,11 @@ func (a *analysis) call(ci ssa.CallInstruction) {
 			for i, p := range params {
 				if i < len(args) {
 					a.addVal(p, a.taintOf(args[i]))
+					if dataBearing(p.Type()) {
+						// a slice / string / array value stands for its content (as a re-slice already does): what has been
+						// written into the argument's backing store travels with the value into the callee
+						a.addVal(p, a.obj[root(args[i])])
+					}
 					a.addObj(p, a.obj[root(args[i])])
 					// what the callee writes through a pointer / slice parameter lands in the caller's object
 					if pointerLike(p.Type()) {
@@ -550,8 +564,8 @@ func (a *analysis) call(ci ssa.CallInstruction) {
 	}
 	// library / external call summaries
 	switch {
-	case strings.HasPrefix(name, "crypto/subtle."):
-		return // sanctioned constant-time sink: result declassified
+	case strings.HasPrefix(name, "crypto/subtle.") || name == "crypto/hmac.Equal":
+		return // sanctioned constant-time sink (hmac.Equal is documented as, and is, ConstantTimeCompare(a, b) == 1): result declassified
 	case strings.HasSuffix(name, ").Sum") && (strings.Contains(name, "hash.Hash") || strings.Contains(name, "hmac")):
 		if v != nil {
 			a.addVal(v, tH|argT)
@@ -967,6 +981,9 @@ func analyse(cfgName string, env []string, patterns []string, wantPkgs map[strin
 	for k := range retAliasOf {
 		delete(retAliasOf, k)
 	}
+	for k := range retGlobalOf {
+		delete(retGlobalOf, k)
+	}
 	for iter := 0; iter < 4; iter++ {
 		for _, f := range a.fns {
 			seen := map[int]bool{}
@@ -980,6 +997,9 @@ func analyse(cfgName string, env []string, patterns []string, wantPkgs map[strin
 									if ix := paramIndex(f, p); ix >= 0 {
 										seen[ix] = true
 									}
+								}
+								if gl, ok := root(res).(*ssa.Global); ok && !isNilConst(res) {
+									retGlobalOf[f] = gl
 								}
 							}
 						}
@@ -1044,6 +1064,126 @@ func analyse(cfgName string, env []string, patterns []string, wantPkgs map[strin
 	for k, v := range valueUse {
 		vcValueUse[k] = v
 	}
+	// a function value that is only ever handed, as an argument, to an analysed function which does nothing with that
+	// parameter but call it (validate(code, n, func(scratch *[10]byte) …)) is as good as called there: argUses records the
+	// (call, argument position) pairs, fnEscapes any other use of the value (stored, returned, passed to foreign code)
+	type argUse struct {
+		c *ssa.CallCommon
+		j int
+	}
+	argUses := map[*ssa.Function][]argUse{}
+	fnEscapes := map[*ssa.Function]bool{}
+	var noteUse func(g *ssa.Function, val ssa.Value, user ssa.Instruction)
+	noteUse = func(g *ssa.Function, val ssa.Value, user ssa.Instruction) {
+		if ct, ok := user.(*ssa.ChangeType); ok && ct.Referrers() != nil {
+			// conversion to a named function type (type expectation func(…) …): the same value under another type
+			for _, ref := range *ct.Referrers() {
+				noteUse(g, ct, ref)
+			}
+			return
+		}
+		if _, ok := user.(*ssa.DebugRef); ok {
+			return
+		}
+		ci, isCall := user.(ssa.CallInstruction)
+		if !isCall {
+			fnEscapes[g] = true
+			return
+		}
+		c := ci.Common()
+		if c.Value == val {
+			return // called directly
+		}
+		h := c.StaticCallee()
+		if h == nil || !a.inRepo[h] || len(h.Blocks) == 0 || c.IsInvoke() {
+			fnEscapes[g] = true
+			return
+		}
+		found := false
+		for j, arg := range c.Args {
+			if arg == val {
+				argUses[g] = append(argUses[g], argUse{c, j})
+				callerFn[c] = user.Parent()
+				found = true
+			}
+		}
+		if !found {
+			fnEscapes[g] = true
+		}
+	}
+	for _, f := range a.fns {
+		for _, b := range f.Blocks {
+			for _, ins := range b.Instrs {
+				if mc, ok := ins.(*ssa.MakeClosure); ok {
+					if g, ok := mc.Fn.(*ssa.Function); ok && mc.Referrers() != nil {
+						for _, ref := range *mc.Referrers() {
+							noteUse(g, mc, ref)
+						}
+					}
+					continue
+				}
+				for _, op := range ins.Operands(nil) {
+					if op != nil && *op != nil {
+						if g, ok := (*op).(*ssa.Function); ok {
+							noteUse(g, g, ins)
+						}
+					}
+				}
+			}
+		}
+	}
+	// onceInit: a function literal that captures nothing and whose only use is as the argument of (*sync.Once).Do runs at
+	// most once per process and can depend on nothing but package-level data, which is read-only (purity): what it stores
+	// into package-level variables is initialisation, exactly as if it stood in init()
+	onceInit := map[*ssa.Function]bool{}
+	{
+		total := map[*ssa.Function]int{}
+		once := map[*ssa.Function]int{}
+		for _, f := range a.fns {
+			for _, b := range f.Blocks {
+				for _, ins := range b.Instrs {
+					for _, op := range ins.Operands(nil) {
+						if op != nil && *op != nil {
+							if g, ok := (*op).(*ssa.Function); ok && g.Parent() != nil {
+								total[g]++
+							}
+						}
+					}
+					if ci, ok := ins.(ssa.CallInstruction); ok {
+						c := ci.Common()
+						if h := c.StaticCallee(); h != nil && h.Pkg != nil && h.Pkg.Pkg.Path() == "sync" && h.Name() == "Do" && len(c.Args) == 2 {
+							if g, ok := c.Args[1].(*ssa.Function); ok && len(g.FreeVars) == 0 && len(g.Params) == 0 {
+								once[g]++
+							}
+						}
+					}
+				}
+			}
+		}
+		for g, n := range once {
+			if n == total[g] {
+				onceInit[g] = true
+			}
+		}
+	}
+	// calledOnly(h, j): parameter j of h is used for nothing but being called; the calls through it
+	calledOnly := func(h *ssa.Function, j int) ([]*ssa.CallCommon, bool) {
+		if j >= len(h.Params) || h.Params[j].Referrers() == nil {
+			return nil, false
+		}
+		var calls []*ssa.CallCommon
+		for _, ref := range *h.Params[j].Referrers() {
+			ci, isCall := ref.(ssa.CallInstruction)
+			if !isCall || ci.Common().Value != ssa.Value(h.Params[j]) {
+				if _, dbg := ref.(*ssa.DebugRef); dbg {
+					continue
+				}
+				return nil, false
+			}
+			calls = append(calls, ci.Common())
+		}
+		return calls, true
+	}
 	// initOnly(f): f runs only while the package is being initialised (it is `init`, or an internal function / literal all
 	// of whose callers are).  A panic there would abort every program that imports the library, including the existing
 	// tests and this check's own harness, so it is not an input-dependent panic site.
@@ -1090,7 +1230,29 @@ func analyse(cfgName string, env []string, patterns []string, wantPkgs map[strin
 	var benignRootFn func(f *ssa.Function, v ssa.Value, depth int) bool
 	var benignParam func(f *ssa.Function, i int, depth int) bool
 	benignParam = func(f *ssa.Function, i int, depth int) bool {
-		if depth > 6 || f.Parent() != nil || valueUse[f] || token.IsExported(f.Name()) || len(callers[f]) == 0 {
+		if depth > 6 || token.IsExported(f.Name()) && f.Parent() == nil {
+			return false
+		}
+		viaValue := f.Parent() != nil || valueUse[f]
+		if viaValue {
+			// a function literal, or a function used as a value: every use of the value must be a direct call or a hand-over
+			// to an analysed function that only calls it
+			if fnEscapes[f] || (len(callers[f]) == 0 && len(argUses[f]) == 0) {
+				return false
+			}
+			for _, u := range argUses[f] {
+				h := u.c.StaticCallee()
+				calls, ok := calledOnly(h, u.j)
+				if !ok {
+					return false
+				}
+				for _, c := range calls {
+					if i >= len(c.Args) || benignRootFn == nil || !benignRootFn(h, c.Args[i], depth+1) {
+						return false
+					}
+				}
+			}
+		} else if len(callers[f]) == 0 {
 			return false
 		}
 		for _, c := range callers[f] {
@@ -1178,7 +1340,11 @@ func analyse(cfgName string, env []string, patterns []string, wantPkgs map[strin
 		if len(f.Blocks) == 0 {
 			continue
 		}
-		isInit := f.Name() == "init" || strings.HasPrefix(f.Name(), "init#")
+		if tp := f.TypeParams(); tp != nil && tp.Len() > 0 && len(f.TypeArgs()) == 0 {
+			// the uninstantiated body of a generic function is never executed; its instances are analysed (InstantiateGenerics)
+			continue
+		}
+		isInit := f.Name() == "init" || strings.HasPrefix(f.Name(), "init#") || onceInit[f]
 		ord := map[string]int{}
 		next := func(kind string) int { ord[kind]++; return ord[kind] }
 		fn := fnName(f)
@@ -1300,6 +1466,15 @@ func analyse(cfgName string, env []string, patterns []string, wantPkgs map[strin
 								// without call sites it is dead code outside the tests
 								continue
 							}
+							if strings.HasPrefix(k, "global:") && !token.IsExported(f.Name()) && f.Parent() == nil && !valueUse[f] && len(callers[f]) > 0 && retGlobalOf[f] != nil {
+								// an internal helper handing its callers a reference to a package-level table: every caller's use
+								// of it is judged as a use of that global (retGlobalOf)
+								continue
+							}
+							if strings.HasPrefix(k, "param:") && rootedAtBenignParam(f, res) {
+								// a view of memory that is local, fresh or pooled at every place this function is called from
+								continue
+							}
 							if strings.HasPrefix(k, "param:") || strings.HasPrefix(k, "global:") || k == "pool" {
 								if !isNilConst(res) {
 									stores = append(stores, site{cfg: cfgName, fn: fn, kind: "return " + k, ord: next("return"), expr: exprText(res)})
@@ -1316,12 +1491,12 @@ func analyse(cfgName string, env []string, patterns []string, wantPkgs map[strin
 					}
 					v := x.Value()
 					// comparison-like library calls and the sanctioned sinks
-					if len(c.Args) >= 2 && (earlyExit[short] || strings.HasPrefix(short, "subtle.")) {
+					if len(c.Args) >= 2 && (earlyExit[short] || strings.HasPrefix(short, "subtle.") || short == "hmac.Equal") {
 						tx := a.taintOf(c.Args[0]) | a.obj[root(c.Args[0])]
 						ty := a.taintOf(c.Args[1]) | a.obj[root(c.Args[1])]
 						if (tx|ty)&tH != 0 {
 							kind := "call " + short
-							if strings.HasPrefix(short, "subtle.") {
+							if strings.HasPrefix(short, "subtle.") || short == "hmac.Equal" {
 								kind = "ct " + short
 							}
 							cmp = append(cmp, site{cfg: cfgName, fn: fn, kind: kind, ord: next("cmp"), expr: exprText(c.Args[0]) + " ~ " + exprText(c.Args[1]), x: tx, y: ty})
